@@ -51,6 +51,11 @@ RootMut(e) ==
                           \* slot bounds: the last slot ends 8 bits later (same parts, same starts); the first boundary moves by one bit
                           \cup {[e EXCEPT !.s[Len(e.s)] = <<@[1], @[2] + 8>>, !.w = @ + 8]}
                           \cup (IF Len(e.s) >= 2 /\ e.s[1][2] > 1 THEN {[e EXCEPT !.s[1] = <<0, @[2] - 1>>, !.s[2] = <<@[1] - 1, @[2]>>]} ELSE {})
+                          \* part-count mutations: one part fewer (a proper prefix of the parts), one part more (the first part once more on top)
+                          \cup (IF Len(e.a) >= 2 THEN {[e EXCEPT !.a = SubSeq(e.a, 1, Len(e.a) - 1), !.s = SubSeq(e.s, 1, Len(e.s) - 1),
+                                                                  !.w = e.s[Len(e.s) - 1][2]]} ELSE {})
+                          \cup {[e EXCEPT !.a = Append(e.a, e.a[1]), !.s = Append(e.s, <<e.w, e.w + (e.s[1][2] - e.s[1][1])>>),
+                                          !.w = e.w + (e.s[1][2] - e.s[1][1])]}
     [] e.k = "aff" -> {}
     [] OTHER -> {}
 Mutations(e) == UNION {{ReplaceAt(e, p, m) : m \in RootMut(SubAt(e, p))} : p \in Paths(e)} \ {e}
